@@ -16,3 +16,4 @@ open Just.Props.C03
 #print axioms Just.Dfs.sorted_rank
 #print axioms resolveAssignments_no_fuel
 #print axioms resolveRecipes_no_fuel
+#print axioms bad_call_never_parses
